@@ -127,8 +127,10 @@ class SplineComp(ExplicitComponent):
             if y_cp_val is None:
                 y_cp_val = np.ones((vec_size, n_cp))
 
-            elif len(y_cp_val.shape) < 2:
-                y_cp_val = y_cp_val.reshape((vec_size, n_cp))
+            else:
+                y_cp_val = np.asarray(y_cp_val)
+                if len(y_cp_val.shape) < 2:
+                    y_cp_val = y_cp_val.reshape((vec_size, n_cp))
 
             self.add_input(name=y_cp_name, val=y_cp_val, units=y_units)
 
